@@ -3,6 +3,7 @@ import TypstyleModel.Proofs.CarriesConstructs
 import TypstyleModel.Proofs.CarriesComment
 import TypstyleModel.Proofs.CarriesLists
 import TypstyleModel.Proofs.CarriesBinary
+import TypstyleModel.Proofs.CarriesListH
 /-! Equations and math (`math.rs`): the math-mode entry points carry exactly what the tree prescribes.
 `Q` is the fragment for contexts that are not in math mode, `QM` the fragment for math mode; the child
 after a `#` is converted in code mode, hence must satisfy `Q`. -/
@@ -1060,5 +1061,126 @@ theorem mathSeq_drop_spaces (sp l : List ANode) (hs : ∀ x ∈ sp, x.kind = .sp
     rw [hk] at h
     have := ih (fun x hx => hs x (List.mem_cons_of_mem _ hx)) false h.2.2
     simpa using this
+
+end Typstyle
+
+namespace Typstyle
+open Twin
+variable {Q QM : ANode → Prop}
+
+/-! ### rows of math arguments with embedded code (`mat(#a, b; c, d)`) -/
+
+/-- Where `#` may stand in a row: not after another `#`, followed by an expression, not last. -/
+def hashSeqB : Bool → List ANode → Bool
+  | p, [] => !p
+  | p, x :: xs => (if x.kind == .hash then !p else (!p || isExpr x)) && hashSeqB (x.kind == .hash) xs
+
+def okRow (Q QM : ANode → Prop) (c : Ctx) (x : ANode) : Prop :=
+  ANode.tokensAreLeaves x = true ∧
+  (if isExpr x = true then ((c.mode = .math → QM x) ∧ (NM c → Q x))
+   else isCommentKind x.kind = true ∨ isIgnorable x = true)
+
+theorem convArrayItem_okRow (e : Env) (r : Rec) (hr : RecOK r Q) (hrM : RecOKM r QM) :
+    CheckerH (convArrayItem e r) specAll (okRow Q QM) := by
+  intro c x hok
+  unfold convArrayItem
+  by_cases hx : isExpr x = true
+  · have hns : (x.kind == .spread) = false := by
+      have : x.kind.isExpr = true := hx
+      cases hk : x.kind <;> simp_all [Kind.isExpr]
+    simp only [hns, Bool.false_eq_true, ↓reduceIte, hx]
+    have h2 := hok.2
+    simp only [hx, ↓reduceIte] at h2
+    by_cases hm : c.mode = .math
+    · exact Post.bind (hrM.expr c x hm hx (h2.1 hm)) (fun d hd => Post.pure hd)
+    · exact Post.bind (hr.expr c x hm hx (h2.2 hm)) (fun d hd => Post.pure hd)
+  · have h2 := hok.2
+    simp only [hx, Bool.false_eq_true, ↓reduceIte] at h2
+    have hns : (x.kind == .spread) = false := by
+      rcases h2 with h | h
+      · cases hk : x.kind <;> simp_all [isCommentKind]
+      · unfold isIgnorable at h
+        cases hk : x.kind <;> simp_all [Kind.fixedText]
+    simp only [hns, Bool.false_eq_true, ↓reduceIte, hx]
+    refine Post.pure ?_
+    show specAll x = triviaS x
+    rcases h2 with h | h
+    · exact triviaS_comment x hok.1 h
+    · exact triviaS_ignorable x hok.1 h
+
+theorem rowSeq_HSeq (ctx : Ctx) (hm : ctx.mode = .math) (cs : List ANode) :
+    ∀ p, MathSeqOK Q QM p cs →
+      (∀ x ∈ cs, isExpr x = true ∨ isCommentKind x.kind = true ∨ isIgnorable x = true ∨ x.kind = .hash) →
+      hashSeqB p cs = true → HSeq (okRow Q QM) (fun x => isExpr x = true) ctx p cs := by
+  induction cs with
+  | nil => intro p _ _ h; show p = false; simpa [hashSeqB] using h
+  | cons x xs ih =>
+    intro p hseq hkinds hh
+    simp only [MathSeqOK] at hseq
+    simp only [hashSeqB, Bool.and_eq_true] at hh
+    have hdec : decide (x.kind = .hash) = (x.kind == .hash) := by
+      by_cases hk : x.kind = .hash <;> simp [hk]
+    refine ⟨?_, by rw [hdec]; exact ih _ hseq.2.2 (fun y hy => hkinds y (List.mem_cons_of_mem _ hy)) hh.2⟩
+    by_cases hk : x.kind = .hash
+    · simp only [hk, ↓reduceIte]
+      have h1 := hh.1
+      simp only [hk, beq_self_eq_true, ↓reduceIte, Bool.not_eq_true'] at h1
+      exact ⟨h1, hseq.1⟩
+    · simp only [hk, ↓reduceIte]
+      have hkb : (x.kind == .hash) = false := by simpa using hk
+      have h1 := hh.1
+      simp only [hkb, Bool.false_eq_true, ↓reduceIte, Bool.or_eq_true, Bool.not_eq_true'] at h1
+      refine ⟨⟨hseq.1, ?_⟩, ?_⟩
+      · by_cases hx : isExpr x = true
+        · simp only [hx, ↓reduceIte]
+          have h2 := hseq.2.1
+          simp only [hx, ↓reduceIte] at h2
+          cases p with
+          | true =>
+            simp only [↓reduceIte] at h2
+            refine ⟨fun hmm => ?_, fun _ => h2⟩
+            simp [Ctx.withModeIf] at hmm
+          | false =>
+            simp only [Bool.false_eq_true, ↓reduceIte] at h2
+            exact ⟨fun _ => h2, fun hnm => absurd hm hnm⟩
+        · simp only [hx, Bool.false_eq_true, ↓reduceIte]
+          rcases hkinds x List.mem_cons_self with h | h | h | h
+          · exact absurd h hx
+          · exact Or.inl h
+          · exact Or.inr h
+          · exact absurd h hk
+      · intro hp
+        rcases h1 with h | h
+        · rw [hp] at h; cases h
+        · exact h
+
+/-- **`convert_array` on a row of math arguments, `#` allowed.** -/
+theorem convArrayMH_carries (e : Env) (r : Rec) (hr : RecOK r Q) (hrM : RecOKM r QM) (ctx : Ctx) (hm : ctx.mode = .math)
+    (cs : List ANode) (a : Attrs) (hda : a.disabled = false)
+    (himp : (cs.head?.map (·.kind == .leftParen)).getD false = false)
+    (hseq : MathSeqOK Q QM false cs)
+    (hkinds : ∀ x ∈ cs, isExpr x = true ∨ isCommentKind x.kind = true ∨ isIgnorable x = true ∨ x.kind = .hash)
+    (hh : hashSeqB false cs = true) :
+    Post (convArray e r ctx (.inner .array cs a)) (fun d => Carries d (specAll (.inner .array cs a))) := by
+  have hv : isVerbatimNode .array cs a = false := by simp [isVerbatimNode, hda]
+  rw [specAll_inner .array cs a hv (by decide)]
+  unfold convArray
+  simp only [ANode.children, himp, Bool.false_eq_true, ↓reduceIte, Bool.not_false, Bool.true_and]
+  have hp := soft_paren e
+  refine list_construct_carriesH e ctx (convArrayItem e r) (convArrayItem_okRow e r hr hrM) ?_ ?_
+    (fun x hl hk => specAll_hash_node x hl hk) _ ⟨rfl, rfl, rfl⟩ id (fun _ => rfl) _ hp.2.2.1 Carries.nil Carries.nil cs
+    (rowSeq_HSeq ctx hm cs false hseq hkinds hh)
+  · intro c x hk
+    unfold convArrayItem
+    have h1 : (x.kind == .spread) = false := by rw [hk]; rfl
+    have h2 : isExpr x = false := by unfold isExpr; rw [hk]; rfl
+    simp [h1, h2]
+  · intro c x hx
+    unfold convArrayItem
+    have hns : (x.kind == .spread) = false := by
+      have : x.kind.isExpr = true := hx
+      cases hk : x.kind <;> simp_all [Kind.isExpr]
+    simp only [hns, Bool.false_eq_true, ↓reduceIte, hx]
+    exact Post.bind (Q := fun _ => True) (fun _ _ _ _ => trivial) (fun d _ => Post.pure rfl)
 
 end Typstyle
